@@ -75,3 +75,18 @@ func TestClosedForms(t *testing.T) {
 		}
 	}
 }
+
+func TestQuantileAndGL(t *testing.T) {
+	for _, p := range []float64{1e-300, 1e-20, 0.02425, 0.3, 0.5, 0.9, 1 - 1e-12} {
+		z := NormQuantile(p)
+		back := ToF(NormCDFBig(z))
+		if rel(back, p) > 1e-15 {
+			t.Errorf("quantile(%v): Phi(z)=%v", p, back)
+		}
+	}
+	got := Integrate20(func(x float64) float64 { return math.Exp(-x * x / 2) }, -1, 1)
+	want := math.Sqrt(2*math.Pi) * math.Erf(1/math.Sqrt2)
+	if math.Abs(got-want) > 1e-14 {
+		t.Errorf("GL20: %v vs %v", got, want)
+	}
+}
